@@ -38,11 +38,22 @@ RULE = (
     'case = one builder program (ordered subset of {add_pixel_data, add_default_instrument, '
     'add_default_sample, add_empty_dnd_data, add_empty_detector_params}) x byte order x pixel '
     'count x chunk size x number of runs x energy mode x string class x target (BytesIO / real '
-    'file); every ordered subset is run (all 326; thorough: in all three byte orders), plus a '
-    'pixel-count x chunk-size grid, a 1..20 run sweep and a string sweep (length 0..5000, 1-4 '
-    'byte UTF-8). distinct = distinct (program set, length, byte order, pixel class, chunk '
-    'relation, runs class, mode, string class, target) signatures; the empty program in native '
-    'order is the only trivial one'
+    'file) x public keywords (rows/row_units: default, explicit, reordered, subset, superset with '
+    'extra coordinates, single row, index-only, float-only, non-default declared units; n_dims '
+    'default and 0..4; title given / default; byteorder as str / enum / default; chunk_size given / '
+    'default) x dtype plan of the pixel rows (per-row mix of float32/float64/int32/int64, and every '
+    'row of one dtype) x class of the metadata objects (random units float64, already in the written '
+    'unit and dtype, float32, integer, mixed) x array size class. Every ordered subset is run (all 326; '
+    'thorough: in all three byte orders), plus a pixel-count x chunk-size grid, a 1..20 run sweep, a '
+    'string sweep (length 0..5000, 1-4 byte UTF-8), the row-set x dtype-plan grid, the metadata class '
+    'x byte order x target grid (canonical objects are also built twice from the same objects), and a '
+    'size ladder: histogram volumes and indirect-mode energy grids just below / at / just above 2^10, '
+    '2^13 (=default chunk size 8192), 2^16, 2^18, 2^20 elements and random sizes in between, in '
+    'memory and on disk, 1e5 pixels in one chunk, and per run two heavy files with an n-d array '
+    'beyond 2^22 elements (histogram in memory ~100 MB; energy grid of a data block ~35 MB). '
+    'distinct = distinct (program set, length, byte order, pixel class, chunk relation, runs class, '
+    'mode, string class, target, keyword/dtype/unit/size variant) signatures; the empty program in '
+    'native order is the only trivial one'
 )
 ASSUMPTIONS = [
     'the container layout is the one in docs/developer/file-formats/sqw.md; struct / object '
@@ -52,11 +63,20 @@ ASSUMPTIONS = [
     'convention, as Horace computes blocks_start = position + 4 + bat_bin_size)',
     'a character occupies one byte in a char array (the document: c_i :uint8), so a length or '
     'shape field of a char array counts bytes',
+    'the pixel block holds as many rows as the rows keyword selects (u32 n_rows in its head); a '
+    'selection has at least one row; float32 and integer pixel rows are supplied in the declared '
+    'unit of their row (a unit conversion of such a row is scipp arithmetic in that dtype)',
+    'the n_dims field of the file header is the n_dims keyword of add_pixel_data (default 4; 0 '
+    'without pixel data)',
+    'sizes are bounded by the memory budget: arrays up to ~4.4e6 elements; the u32 size field of the '
+    'allocation table (blocks >= 4 GiB) is not exercised',
 ]
 TECHNIQUE = ('runtime artefact monitor on SqwBuilder.create (sys.monitoring) + independent SQW '
              'container decoder; per-block bytes-written trace of the writer as diagnosis')
 LEVEL_TEXT = ('exploration: every file produced by all 326 builder programs (x byte orders), a pixel-count '
-              'x chunk-size grid, run and string sweeps, in memory and on disk, is decoded byte by byte '
+              'x chunk-size grid, run and string sweeps, a row-selection x dtype grid over the public keywords, '
+              'metadata unit/dtype classes and an array-size ladder up to ~100 MB, in memory and on disk, is '
+              'decoded byte by byte '
               'by an independent decoder and judged against the container rules of the property; held '
               'on the files produced, exhaustive only over the finite set of builder programs')
 LEVEL_NOTE = ('trusted: the independent decoder rv/oracle/sqwdec.py (format as documented + Horace '
@@ -163,12 +183,120 @@ def gen_row_values(rng, n, dtype, value_class):
     return v
 
 
+# ---- pixel rows: which rows are written (public keywords rows / row_units) ----
+ROW_KIND = {'u1': 'float', 'u2': 'float', 'u3': 'float', 'u4': 'float', 'irun': 'index', 'idet': 'index',
+            'ien': 'index', 'signal': 'data', 'error': 'data',
+            'weight': 'float', 'temperature': 'float', 'e2': 'float', 'flag': 'index'}
+# extra per-pixel coordinates a caller may add to the nine standard rows: declared unit, input units
+EXTRA_ROWS = {'weight': ('one', ('one',)), 'temperature': ('K', ('K',)), 'e2': ('meV', EN_UNITS),
+              'flag': (None, (None,))}
+CONVERTIBLE = {'1/angstrom': ('1/angstrom', '1/nm'), '1/nm': ('1/angstrom', '1/nm'),
+               'meV': EN_UNITS, 'ueV': EN_UNITS, 'eV': EN_UNITS}
+ROWSETS = ('default', 'explicit', 'reordered', 'subset', 'superset', 'single', 'int_only', 'float_only',
+           'custom_units')
+DTYPE_PLANS = ('mixed', 'all_f32', 'all_f64', 'all_i64', 'all_i32')
+META_CLASSES = ('random', 'canonical', 'f32', 'int', 'mixed')
+CANONICAL = {'energy': 'meV', 'angle': 'rad', 'length': 'angstrom', 'lattice_angle': 'deg',
+             'q': '1/angstrom'}
+
+
+def choose_rowset(rng, kind):
+    """(row names, declared row units, whether rows/row_units are passed) of a row-set class."""
+    std = list(zip(ROWS, ROW_UNITS, strict=True))
+    ext = [(k, v[0]) for k, v in EXTRA_ROWS.items()]
+    if kind == 'default':
+        return list(ROWS), list(ROW_UNITS), False
+    if kind == 'explicit':
+        sel = std
+    elif kind == 'reordered':
+        sel = [std[i] for i in rng.permutation(9)]
+    elif kind == 'subset':
+        k = int(rng.integers(1, 9))
+        sel = [std[i] for i in rng.permutation(9)[:k]]
+    elif kind == 'superset':
+        k = int(rng.integers(1, len(ext) + 1))
+        sel = std + [ext[i] for i in rng.permutation(len(ext))[:k]]
+        if rng.random() < 0.5:
+            sel = [sel[i] for i in rng.permutation(len(sel))]
+    elif kind == 'single':
+        pool = std + ext
+        sel = [pool[int(rng.integers(0, len(pool)))]]
+    elif kind == 'int_only':
+        pool = [x for x in std + ext if ROW_KIND[x[0]] == 'index']
+        k = int(rng.integers(1, len(pool) + 1))
+        sel = [pool[i] for i in rng.permutation(len(pool))[:k]]
+    elif kind == 'float_only':
+        pool = [x for x in std + ext if ROW_KIND[x[0]] != 'index']
+        k = int(rng.integers(2, len(pool) + 1))
+        sel = [pool[i] for i in rng.permutation(len(pool))[:k]]
+    elif kind == 'custom_units':
+        sel = []
+        for nme, u in std:
+            if u in CONVERTIBLE:
+                opts = CONVERTIBLE[u]
+                u = opts[int(rng.integers(0, len(opts)))]
+            sel.append((nme, u))
+    else:
+        raise ValueError(kind)
+    return [x[0] for x in sel], [x[1] for x in sel], True
+
+
+def _row_dtype(rng, plan, kind):
+    if plan == 'all_f32':
+        return 'float32'
+    if plan == 'all_f64':
+        return 'float64'
+    if plan in ('all_i64', 'all_i32'):
+        return 'float64' if kind == 'data' else {'all_i64': 'int64', 'all_i32': 'int32'}[plan]
+    if kind == 'float':
+        return ('float64', 'float64', 'float64', 'float32', 'int64')[int(rng.integers(0, 5))]
+    if kind == 'index':
+        return ('int64', 'int32', 'float64', 'float32')[int(rng.integers(0, 4))]
+    return 'float32' if rng.random() < 0.25 else 'float64'
+
+
+def gen_pixels(rng, case, runs):
+    """The per-pixel arrays handed to add_pixel_data and the selection of rows to write.
+
+    float64 rows of a convertible unit come in any convertible input unit; float32 and
+    integer rows are supplied in the declared unit of their row (a conversion would be
+    carried out in the dtype of the row, which is scipp's arithmetic, not the writer's)."""
+    n = case['npix']
+    vclass = case['values']
+    plan = case.get('dtypes', 'mixed')
+    names, units, pass_rows = choose_rowset(rng, case.get('rowset', 'default'))
+    declared = dict(zip(ROWS, ROW_UNITS, strict=True))
+    declared.update({k: v[0] for k, v in EXTRA_ROWS.items()})
+    declared.update(dict(zip(names, units, strict=True)))
+    present = list(ROWS) + [k for k in names if k not in ROWS]
+    dt_data = _row_dtype(rng, plan, 'data')
+    rows = {}
+    for name in present:
+        kind = ROW_KIND[name]
+        dt = dt_data if kind == 'data' else _row_dtype(rng, plan, kind)
+        unit = declared[name]
+        if dt == 'float64' and kind == 'float' and unit in CONVERTIBLE:
+            opts = CONVERTIBLE[unit]
+            unit = opts[int(rng.integers(0, len(opts)))]
+        if kind == 'index' and dt in ('float64', 'float32'):
+            vals = rng.integers(0, 2**20, size=n).astype(dt)
+        else:
+            vals = gen_row_values(rng, n, dt, vclass)
+        if name == 'irun':
+            vals = (vals % max(runs, 1)).astype(vals.dtype)
+        if name == 'error':
+            vals = np.abs(vals)
+        rows[name] = {'values': vals, 'unit': unit, 'dtype': dt}
+    return {'n': n, 'rows': rows, 'row_names': names, 'row_units': units, 'pass_rows': pass_rows,
+            'n_dims': case.get('n_dims')}
+
+
 def gen_spec(rng, case) -> dict:
     """Everything that is supplied to the builder, as plain numbers / strings."""
-    n = case['npix']
     runs = case['nruns']
     sclass = case['string']
     long_field = sclass['field']
+    meta = case.get('meta', 'random')
 
     def s(field, default_len=None, path_safe=False):
         if field == long_field:
@@ -176,53 +304,54 @@ def gen_spec(rng, case) -> dict:
         ln = int(rng.integers(0, 12)) if default_len is None else default_len
         return gen_string(rng, ln, 'ascii', path_safe)
 
-    spec = {'title': s('title')}
-    vclass = case['values']
-    # ---- pixels
-    rows = {}
-    for name in ('u1', 'u2', 'u3', 'u4'):
-        dt = 'float32' if rng.random() < 0.2 else 'float64'
-        unit = ROW_UNITS[ROWS.index(name)] if dt == 'float32' else \
-            ROW_INPUT_UNITS[name][rng.integers(0, len(ROW_INPUT_UNITS[name]))]
-        rows[name] = {'values': gen_row_values(rng, n, dt, vclass), 'unit': unit, 'dtype': dt}
-    for name in ('irun', 'idet', 'ien'):
-        dt = ('int64', 'int32', 'float64')[rng.integers(0, 3)]
-        if dt == 'float64':
-            vals = rng.integers(0, 2**20, size=n).astype(np.float64)
-        else:
-            vals = gen_row_values(rng, n, dt, vclass)
-        if name == 'irun':
-            vals = (vals % max(runs, 1)).astype(vals.dtype)
-        rows[name] = {'values': vals, 'unit': None, 'dtype': dt}
-    dt = 'float32' if rng.random() < 0.25 else 'float64'
-    rows['signal'] = {'values': gen_row_values(rng, n, dt, vclass), 'unit': 'count', 'dtype': dt}
-    rows['error'] = {'values': np.abs(gen_row_values(rng, n, dt, vclass)), 'unit': 'count**2',
-                     'dtype': dt}
-    spec['pix'] = {'n': n, 'rows': rows, 'explicit_rows': bool(rng.random() < 0.5), 'n_dims': 4}
+    def unit_of(options, family):
+        u = options[int(rng.integers(0, len(options)))]
+        return CANONICAL[family] if meta == 'canonical' else u
+
+    def dtype_of():
+        k = int(rng.integers(0, 4))
+        if meta in ('random', 'canonical'):
+            return 'float64'
+        if meta == 'f32':
+            return 'float32'
+        if meta == 'int':
+            return ('int64', 'int32')[k % 2]
+        return ('float64', 'float32', 'int64', 'int32')[k]
+
+    def q(values, unit, dt=None):
+        """A supplied quantity: the values are exactly what the scipp object will hold."""
+        dt = dt or dtype_of()
+        a = np.asarray(values, dtype=np.float64)
+        if dt == 'float32':
+            a = a.astype(np.float32)
+        elif dt != 'float64':
+            a = np.rint(a).astype(dt)
+        return {'values': a.item() if a.ndim == 0 else a, 'unit': unit, 'dtype': dt}
+
+    spec = {'title': s('title') if case.get('pass_title', True) else ''}
+    spec['pix'] = gen_pixels(rng, case, runs)
     # ---- experiments
     exps = []
     for i in range(runs):
         mode = case['mode'] if case['mode'] != 'mixed' else ('direct', 'indirect')[i % 2]
-        n_en = int(rng.integers(1, 7))
-        eu = EN_UNITS[rng.integers(0, 3)]
+        n_en = case.get('n_en') or int(rng.integers(1, 7))
+        eu = unit_of(EN_UNITS, 'energy')
+        fu = unit_of(EN_UNITS, 'energy')
         if mode == 'direct':
-            efix = {'values': float(10.0 ** rng.uniform(-2, 3)), 'unit': EN_UNITS[rng.integers(0, 3)]}
-            en = {'values': np.sort(rng.uniform(-50, 50, size=n_en)), 'unit': eu,
-                  'dims': ['energy_transfer']}
+            efix = q(10.0 ** rng.uniform(-2, 3), fu)
+            en = {**q(np.sort(rng.uniform(-50, 50, size=n_en)), eu), 'dims': ['energy_transfer']}
         else:
             ndet = case.get('ndet') or int(rng.integers(2, 6))
-            efix = {'values': 10.0 ** rng.uniform(-2, 3, size=ndet), 'unit': EN_UNITS[rng.integers(0, 3)]}
+            efix = q(10.0 ** rng.uniform(-2, 3, size=ndet), fu)
             vals = rng.uniform(-50, 50, size=(ndet, n_en))
             if rng.random() < 0.5:
-                en = {'values': vals, 'unit': eu, 'dims': ['detector', 'energy_transfer']}
+                en = {**q(vals, eu), 'dims': ['detector', 'energy_transfer']}
             else:
-                en = {'values': np.ascontiguousarray(vals.T), 'unit': eu,
-                      'dims': ['energy_transfer', 'detector']}
+                en = {**q(np.ascontiguousarray(vals.T), eu), 'dims': ['energy_transfer', 'detector']}
         ang = {}
         for a in ('psi', 'omega', 'dpsi', 'gl', 'gs'):
-            u = ANGLE_UNITS[rng.integers(0, 2)]
-            ang[a] = {'values': float(rng.uniform(-360, 360) if u == 'deg' else rng.uniform(-6.3, 6.3)),
-                      'unit': u}
+            u = unit_of(ANGLE_UNITS, 'angle')
+            ang[a] = q(rng.uniform(-360, 360) if u == 'deg' else rng.uniform(-6.3, 6.3), u)
         exps.append({
             'run_id': i if case.get('run_ids', 'seq') == 'seq' else int(rng.integers(0, 10**6)),
             'efix': efix, 'emode': mode, 'en': en, **ang,
@@ -235,10 +364,10 @@ def gen_spec(rng, case) -> dict:
     spec['instrument'] = {
         'name': s('inst_name'),
         'source': {'name': s('source_name'), 'target_name': gen_string(rng, int(rng.integers(0, 9)), 'ascii'),
-                   'frequency': {'values': float(rng.uniform(1, 60)), 'unit': 'Hz'}},
+                   'frequency': q(rng.uniform(1, 60), 'Hz')},
     }
-    lu = ('angstrom', 'nm')[rng.integers(0, 2)]
-    au = ANGLE_UNITS[rng.integers(0, 2)]
+    lu = unit_of(('angstrom', 'nm'), 'length')
+    au = unit_of(ANGLE_UNITS, 'lattice_angle')
     spec['sample'] = {
         'name': s('sample_name'),
         'alatt': {'values': rng.uniform(2, 12, size=3) * (0.1 if lu == 'nm' else 1.0), 'unit': lu},
@@ -246,36 +375,41 @@ def gen_spec(rng, case) -> dict:
                    'unit': au},
     }
     # ---- dnd metadata
-    qunits = [('1/angstrom', '1/nm')[rng.integers(0, 2)] for _ in range(3)] + [EN_UNITS[rng.integers(0, 3)]]
+    qunits = [unit_of(('1/angstrom', '1/nm'), 'q') for _ in range(3)] + [unit_of(EN_UNITS, 'energy')]
     hi = 4 if case.get('tier', 'quick') == 'quick' else 9
     nbins = [int(x) for x in rng.integers(1, hi, size=4)]
-    lu = ('angstrom', 'nm')[rng.integers(0, 2)]
-    au = ANGLE_UNITS[rng.integers(0, 2)]
+    if case.get('dnd_bins'):
+        nbins = [int(x) for x in case['dnd_bins']]
+    lu = unit_of(('angstrom', 'nm'), 'length')
+    au = unit_of(ANGLE_UNITS, 'lattice_angle')
     vu = ('1/angstrom', '1/nm')
+    idt = ('int64', 'int64', 'int32', 'float64')
     spec['dnd'] = {
         'axes': {
             'title': s('axes_title'),
             'label': [s('label') if j == 1 else gen_string(rng, int(rng.integers(0, 6)), 'ascii')
                       for j in range(4)],
-            'img_scales': [{'values': float(rng.uniform(0.1, 3)), 'unit': u} for u in qunits],
-            'img_range': [{'values': np.sort(rng.uniform(-5, 5, size=2)), 'unit': u} for u in qunits],
+            'img_scales': [q(rng.uniform(1, 4), u) for u in qunits],
+            'img_range': [q(np.sort(rng.uniform(-5, 5, size=2)), u) for u in qunits],
             'n_bins_all_dims': nbins,
+            'n_bins_dtype': 'int64' if meta in ('random', 'canonical') else idt[int(rng.integers(0, 4))],
             'single_bin_defines_iax': [bool(b) for b in rng.integers(0, 2, size=4)],
             'dax': [int(x) for x in rng.permutation(4)],
-            'offset': [{'values': float(rng.uniform(-1, 1)), 'unit': u} for u in qunits],
+            'dax_dtype': 'int64' if meta in ('random', 'canonical') else idt[int(rng.integers(0, 3))],
+            'offset': [q(rng.uniform(-1, 1), u) for u in qunits],
             'changes_aspect_ratio': bool(rng.integers(0, 2)),
         },
         'proj': {
             'alatt': {'values': rng.uniform(2, 12, size=3) * (0.1 if lu == 'nm' else 1.0), 'unit': lu},
             'angdeg': {'values': rng.uniform(60, 120, size=3) if au == 'deg' else rng.uniform(1.0, 2.1, size=3),
                        'unit': au},
-            'offset': [{'values': float(rng.uniform(-1, 1)), 'unit': u} for u in qunits],
+            'offset': [q(rng.uniform(-1, 1), u) for u in qunits],
             'title': s('proj_title'),
             'label': [gen_string(rng, int(rng.integers(0, 6)), 'ascii') for _ in range(4)],
-            'u': {'values': rng.uniform(-1, 1, size=3), 'unit': vu[rng.integers(0, 2)]},
-            'v': {'values': rng.uniform(-1, 1, size=3), 'unit': vu[rng.integers(0, 2)]},
+            'u': {'values': rng.uniform(-1, 1, size=3), 'unit': unit_of(vu, 'q')},
+            'v': {'values': rng.uniform(-1, 1, size=3), 'unit': unit_of(vu, 'q')},
             'w': None if rng.random() < 0.5 else {'values': rng.uniform(-1, 1, size=3),
-                                                  'unit': vu[rng.integers(0, 2)]},
+                                                  'unit': unit_of(vu, 'q')},
             'non_orthogonal': bool(rng.integers(0, 2)),
             'type': 'aaa',
         },
@@ -286,6 +420,13 @@ def gen_spec(rng, case) -> dict:
 def build_models(S, sc, spec, program):
     """scipp / scippneutron input objects from the plain spec (inputs, not expectations)."""
     m = {}
+
+    def scal(x):
+        return sc.scalar(x['values'], unit=x['unit'], dtype=x.get('dtype', 'float64'))
+
+    def arr(x, dims):
+        return sc.array(dims=dims, values=x['values'], unit=x['unit'], dtype=x.get('dtype', 'float64'))
+
     if 'pix' in program:
         rows = spec['pix']['rows']
         sig, err = rows['signal'], rows['error']
@@ -298,19 +439,12 @@ def build_models(S, sc, spec, program):
         m['pix'] = sc.DataArray(data, coords=coords)
         exps = []
         for e in spec['experiments']:
-            if e['emode'] == 'direct':
-                efix = sc.scalar(e['efix']['values'], unit=e['efix']['unit'])
-            else:
-                efix = sc.array(dims=['detector'], values=e['efix']['values'], unit=e['efix']['unit'])
+            efix = scal(e['efix']) if e['emode'] == 'direct' else arr(e['efix'], ['detector'])
             exps.append(S.SqwIXExperiment(
                 run_id=e['run_id'], efix=efix, emode=S.EnergyMode[e['emode']],
-                en=sc.array(dims=e['en']['dims'], values=e['en']['values'], unit=e['en']['unit']),
-                psi=sc.scalar(e['psi']['values'], unit=e['psi']['unit']),
-                u=sc.vector(e['u']), v=sc.vector(e['v']),
-                omega=sc.scalar(e['omega']['values'], unit=e['omega']['unit']),
-                dpsi=sc.scalar(e['dpsi']['values'], unit=e['dpsi']['unit']),
-                gl=sc.scalar(e['gl']['values'], unit=e['gl']['unit']),
-                gs=sc.scalar(e['gs']['values'], unit=e['gs']['unit']),
+                en=arr(e['en'], e['en']['dims']),
+                psi=scal(e['psi']), u=sc.vector(e['u']), v=sc.vector(e['v']),
+                omega=scal(e['omega']), dpsi=scal(e['dpsi']), gl=scal(e['gl']), gs=scal(e['gs']),
                 filename=e['filename'], filepath=e['filepath']))
         m['experiments'] = exps
     if 'inst' in program:
@@ -318,8 +452,7 @@ def build_models(S, sc, spec, program):
         m['inst'] = S.SqwIXNullInstrument(
             name=i['name'],
             source=S.SqwIXSource(name=i['source']['name'], target_name=i['source']['target_name'],
-                                 frequency=sc.scalar(i['source']['frequency']['values'],
-                                                     unit=i['source']['frequency']['unit'])))
+                                 frequency=scal(i['source']['frequency'])))
     if 'samp' in program:
         s = spec['sample']
         m['samp'] = S.SqwIXSample(
@@ -328,20 +461,15 @@ def build_models(S, sc, spec, program):
             lattice_angle=sc.vector(s['angdeg']['values'], unit=s['angdeg']['unit']))
     if 'dnd' in program:
         a, p = spec['dnd']['axes'], spec['dnd']['proj']
-
-        def scal(x):
-            return sc.scalar(x['values'], unit=x['unit'])
-
         m['dnd'] = S.SqwDndMetadata(
             axes=S.SqwLineAxes(
                 title=a['title'], label=list(a['label']),
                 img_scales=[scal(x) for x in a['img_scales']],
-                img_range=[sc.array(dims=['range'], values=x['values'], unit=x['unit'])
-                           for x in a['img_range']],
+                img_range=[arr(x, ['range']) for x in a['img_range']],
                 n_bins_all_dims=sc.array(dims=['axis'], values=a['n_bins_all_dims'], unit=None,
-                                         dtype='int64'),
+                                         dtype=a.get('n_bins_dtype', 'int64')),
                 single_bin_defines_iax=sc.array(dims=['axis'], values=a['single_bin_defines_iax']),
-                dax=sc.array(dims=['axis'], values=a['dax'], unit=None, dtype='int64'),
+                dax=sc.array(dims=['axis'], values=a['dax'], unit=None, dtype=a.get('dax_dtype', 'int64')),
                 offset=[scal(x) for x in a['offset']],
                 changes_aspect_ratio=a['changes_aspect_ratio']),
             proj=S.SqwLineProj(
@@ -357,13 +485,27 @@ def build_models(S, sc, spec, program):
 
 
 def run_program(S, case, spec, models, target):
-    """Drive the real builder: the program of ``case`` followed by create()."""
-    b = S.Sqw.build(target, title=spec['title'], byteorder=case['byteorder'])
+    """Drive the real builder: the program of ``case`` followed by create().  Which public
+    keywords are passed (title, byteorder as str / enum / default, rows + row_units, n_dims,
+    chunk_size) is part of the case."""
+    kw = {}
+    if case.get('pass_title', True):
+        kw['title'] = spec['title']
+    how = case.get('byteorder_as', 'str')
+    if how == 'enum':
+        kw['byteorder'] = S.Byteorder[resolved(case['byteorder'])]
+    elif not (how == 'omit' and case['byteorder'] == 'native'):
+        kw['byteorder'] = case['byteorder']
+    b = S.Sqw.build(target, **kw)
     for call in case['program']:
         if call == 'pix':
             kw = {}
-            if spec['pix']['explicit_rows']:
-                kw = {'rows': ROWS, 'row_units': ROW_UNITS, 'n_dims': spec['pix']['n_dims']}
+            px = spec['pix']
+            if px['pass_rows']:
+                kw['rows'] = tuple(px['row_names'])
+                kw['row_units'] = tuple(px['row_units'])
+            if px['n_dims'] is not None:
+                kw['n_dims'] = px['n_dims']
             b = b.add_pixel_data(models['pix'], experiments=models['experiments'], **kw)
         elif call == 'inst':
             b = b.add_default_instrument(models['inst'])
@@ -378,13 +520,57 @@ def run_program(S, case, spec, models, target):
     return b.create(chunk_size=case['chunk'])
 
 
+def case_reps(case):
+    """The executions of a case: a case with repeat=k is built k times from the SAME model
+    objects; the later builds go to the other kind of target."""
+    yield case
+    for r in range(1, case.get('repeat', 1)):
+        other = 'file' if case['target'] == 'bytesio' else 'bytesio'
+        yield dict(case, rep=r, target=other if r % 2 else case['target'])
+
+
+def describe_rows(case, spec):
+    """Row selection of the case, for witnesses."""
+    if 'pix' in case['program']:
+        px = spec['pix']
+        case['rows'] = list(px['row_names']) if px['pass_rows'] else 'default'
+        case['row_units'] = [str(u) for u in px['row_units']] if px['pass_rows'] else 'default'
+        case['row_dtypes'] = [px['rows'][k]['dtype'] for k in px['row_names']]
+
+
+def expected_n_dims(case):
+    """n_dims of the file header: the keyword of add_pixel_data (default 4), 0 without pixels."""
+    if 'pix' not in case['program']:
+        return 0
+    return 4 if case.get('n_dims') is None else int(case['n_dims'])
+
+
 # ---------------------------------------------------------------- case lists ---
 def _base_case(**kw):
     c = {'program': list(CALLS), 'byteorder': 'little', 'npix': 5, 'chunk': None, 'nruns': 2,
          'mode': 'direct', 'string': {'field': 'title', 'alphabet': 'ascii', 'length': 8},
-         'target': 'bytesio', 'values': 'forced', 'run_ids': 'seq', 'path': 'plain'}
+         'target': 'bytesio', 'values': 'forced', 'run_ids': 'seq', 'path': 'plain',
+         # public keywords / dtypes / units of the supplied objects
+         'rowset': 'default', 'dtypes': 'mixed', 'meta': 'random', 'n_dims': None, 'pass_title': True,
+         'byteorder_as': 'str', 'dnd_bins': None, 'ndet': None, 'n_en': None, 'repeat': 1}
     c.update(kw)
+    if c['byteorder'] != 'native' and c['byteorder_as'] == 'omit':
+        c['byteorder_as'] = 'str'
     return c
+
+
+def rand_variant(rng):
+    """Random choice of the keyword / dtype / unit classes of a case."""
+    r = rng.random(5)
+    k = rng.integers(0, 2**31, size=6)
+    return {
+        'rowset': 'default' if r[0] < 0.35 else ROWSETS[1 + int(k[0] % (len(ROWSETS) - 1))],
+        'dtypes': 'mixed' if r[1] < 0.6 else DTYPE_PLANS[1 + int(k[1] % (len(DTYPE_PLANS) - 1))],
+        'meta': META_CLASSES[int(k[2] % len(META_CLASSES))],
+        'n_dims': None if r[2] < 0.6 else int(k[3] % 5),
+        'pass_title': bool(r[3] < 0.85),
+        'byteorder_as': ('str', 'str', 'enum', 'omit')[int(k[4] % 4)],
+    }
 
 
 def chunk_grid(n, big=False):
@@ -394,6 +580,30 @@ def chunk_grid(n, big=False):
     return sorted(c for c in cs if c >= 1)
 
 
+NON_NATIVE = 'big' if NATIVE == 'little' else 'little'
+HEAVY = 1 << 22          # elements: arrays beyond this are the (one or two) heavy cases of a run
+# element counts around which array sizes are placed (both sides): the constants of the writer
+# (default chunk 8192) and powers of two up to the heavy limit
+SIZE_POINTS = (1 << 10, 1 << 13, 1 << 16, 1 << 18, 1 << 20)
+
+
+def shape_near(rng, count, side, ndim=4):
+    """A shape with ``ndim`` axes whose volume is just below / equal to / just above ``count``;
+    the long axis is put at a random position."""
+    small = [int(2 ** rng.integers(0, 3)) for _ in range(ndim - 1)]
+    m = int(np.prod(small))
+    if side == 'below':
+        d = max((count - 1) // m, 1)
+    elif side == 'above':
+        d = count // m + 1
+    else:
+        d = max(count // m, 1)
+    shape = [*small, d]
+    k = int(rng.integers(0, ndim))
+    shape[k], shape[-1] = shape[-1], shape[k]
+    return shape
+
+
 def make_items(tier: str, seed: int) -> list[dict]:
     """Work items; an item is a list of cases judged together (a permutation group or a
     single case).  Deterministic in (tier, seed)."""
@@ -401,6 +611,20 @@ def make_items(tier: str, seed: int) -> list[dict]:
     thorough = tier == 'thorough'
     items = []
     orders = ('native', 'little', 'big')
+
+    def single(pin=None, **kw):
+        it = {'kind': 'single', 'cases': [_base_case(**kw)]}
+        if pin is not None:
+            it['pin'] = pin
+        items.append(it)
+
+    def shuffled(calls):
+        calls = list(calls)
+        return [calls[i] for i in rng.permutation(len(calls))]
+
+    def with_pix():
+        return shuffled([x for x in CALLS if x == 'pix' or rng.random() < 0.5])
+
     # (A) every ordered subset of the builder calls, grouped by call set
     k = 0
     for size in range(len(CALLS) + 1):
@@ -417,6 +641,7 @@ def make_items(tier: str, seed: int) -> list[dict]:
                     'chunk': [None, 1, 4, 16][int(rng.integers(0, 4))],
                     'string': {'field': STRING_FIELDS[int(rng.integers(0, len(STRING_FIELDS)))],
                                'alphabet': 'ascii', 'length': int(rng.integers(0, 40))},
+                    **rand_variant(rng),
                 }
                 items.append({'kind': 'perm_group', 'cases': [
                     _base_case(program=p, byteorder=bo, **base) for p in perms]})
@@ -426,29 +651,27 @@ def make_items(tier: str, seed: int) -> list[dict]:
     for n in counts:
         for c in chunk_grid(n, big=thorough):
             if not thorough and n >= 8191 and c in (2, 3, 10):
-                continue  # kept for the thorough tier (cost once the loop is repaired)
-            prog = [x for x in CALLS if x == 'pix' or rng.random() < 0.5]
-            prog = [prog[i] for i in rng.permutation(len(prog))]
+                continue  # kept for the thorough tier
+            prog = with_pix()
             bos = orders if thorough else (orders[int(rng.integers(0, 3))],)
             for bo in bos:
-                items.append({'kind': 'single', 'cases': [_base_case(
-                    program=prog, byteorder=bo, npix=n, chunk=c,
-                    nruns=int(rng.integers(1, 4)),
-                    target='file' if rng.random() < 0.3 else 'bytesio',
-                    values='wide' if rng.random() < 0.5 else 'forced')]})
+                var = rand_variant(rng)
+                if n >= 8191:
+                    var['meta'] = 'random'
+                single(program=prog, byteorder=bo, npix=n, chunk=c, nruns=int(rng.integers(1, 4)),
+                       target='file' if rng.random() < 0.3 else 'bytesio',
+                       values='wide' if rng.random() < 0.5 else 'forced', **var)
     for n in (7, 10000) if not thorough else (7, 50, 10000, 20000):
-        items.append({'kind': 'single', 'cases': [_base_case(npix=n, chunk=None, program=['pix'])]})
+        single(npix=n, chunk=None, program=['pix'])
     # (C) 1..20 runs, direct / indirect / mixed
     for runs in range(1, 21):
         modes = ('direct', 'indirect', 'mixed') if thorough else (('direct', 'indirect', 'mixed')[runs % 3],
                                                                  'indirect' if runs in (1, 20) else 'direct')
         for mode in dict.fromkeys(modes):
-            items.append({'kind': 'single', 'cases': [_base_case(
-                nruns=runs, mode=mode, byteorder=orders[int(rng.integers(0, 3))],
-                program=[CALLS[i] for i in rng.permutation(5)],
-                run_ids='seq' if rng.random() < 0.7 else 'random',
-                ndet=1 if (mode == 'indirect' and runs == 7) else None,
-                target='file' if rng.random() < 0.3 else 'bytesio')]})
+            single(nruns=runs, mode=mode, byteorder=orders[int(rng.integers(0, 3))],
+                   program=shuffled(CALLS), run_ids='seq' if rng.random() < 0.7 else 'random',
+                   ndet=1 if (mode == 'indirect' and runs == 7) else None,
+                   target='file' if rng.random() < 0.3 else 'bytesio', **rand_variant(rng))
     # (D) strings: length 0..5000, 1..4 byte characters, every string-bearing field
     lengths = [0, 1, 2, 13, 255, 256, 1000, 5000] if not thorough else \
         [0, 1, 2, 3, 7, 13, 64, 255, 256, 257, 1000, 4095, 4096, 5000]
@@ -459,24 +682,19 @@ def make_items(tier: str, seed: int) -> list[dict]:
             for fld in fields:
                 if alphabet != 'ascii' and ln == 0:
                     continue
-                items.append({'kind': 'single', 'cases': [_base_case(
-                    string={'field': fld, 'alphabet': alphabet, 'length': ln},
-                    byteorder=orders[int(rng.integers(0, 3))],
-                    program=[CALLS[i] for i in rng.permutation(5)],
-                    target='bytesio')]})
+                single(string={'field': fld, 'alphabet': alphabet, 'length': ln},
+                       byteorder=orders[int(rng.integers(0, 3))], program=shuffled(CALLS),
+                       target='bytesio')
     # (E) real files: plain / deep / long / non-ASCII path
     for pathkind in ('plain', 'deep', 'long', 'nonascii', 'nonascii_dir'):
         for bo in orders:
-            items.append({'kind': 'single', 'cases': [_base_case(
-                target='file', path=pathkind, byteorder=bo,
-                program=[CALLS[i] for i in rng.permutation(5)],
-                npix=int(rng.choice([0, 3, 50])))]})
+            single(target='file', path=pathkind, byteorder=bo, program=shuffled(CALLS),
+                   npix=int(rng.choice([0, 3, 50])))
     # (F) random mixtures
     for _ in range(60 if not thorough else 4000):
-        prog = [x for x in CALLS if rng.random() < 0.7]
-        prog = [prog[i] for i in rng.permutation(len(prog))]
+        prog = shuffled([x for x in CALLS if rng.random() < 0.7])
         n = int(rng.choice([0, 1, 2, 5, 9, 10, 11, 17, 64, 300, 1000]))
-        items.append({'kind': 'single', 'cases': [_base_case(
+        single(
             program=prog, byteorder=orders[int(rng.integers(0, 3))], npix=n,
             chunk=[None, 1, 2, 3, 8, 9, 10, max(n - 1, 1), max(n, 1), n + 1, 8192][int(rng.integers(0, 11))],
             nruns=int(rng.integers(1, 21)) if rng.random() < 0.3 else int(rng.integers(1, 4)),
@@ -487,7 +705,83 @@ def make_items(tier: str, seed: int) -> list[dict]:
             target='file' if rng.random() < 0.3 else 'bytesio',
             path=('plain', 'nonascii')[int(rng.integers(0, 2))],
             values=('forced', 'wide', 'plain')[int(rng.integers(0, 3))],
-            run_ids='seq' if rng.random() < 0.7 else 'random')]})
+            run_ids='seq' if rng.random() < 0.7 else 'random', **rand_variant(rng))
+    # (G) public keywords and dtypes: every row-set class x every dtype plan (incl. all rows of one
+    #     dtype), every n_dims, title / byteorder keyword forms, both targets, all byte orders
+    i = 0
+    for _rep in range(1 if not thorough else 6):
+        for rowset in ROWSETS:
+            for plan in DTYPE_PLANS:
+                n = (5, 1, 23, 300, 0, 9)[i % 6]
+                single(program=with_pix(), rowset=rowset, dtypes=plan, byteorder=orders[(i + seed) % 3],
+                       target=('bytesio', 'file')[(i // 3) % 2], npix=n,
+                       chunk=(None, 1, 4, 9, 16, 8192, n + 1)[int(rng.integers(0, 7))],
+                       n_dims=(None, 0, 1, 2, 3, 4)[(i // 2) % 6],
+                       meta=META_CLASSES[int(rng.integers(0, len(META_CLASSES)))],
+                       pass_title=bool(i % 5), byteorder_as=('str', 'enum', 'omit')[i % 3],
+                       nruns=int(rng.integers(1, 4)), mode=('direct', 'indirect', 'mixed')[i % 3],
+                       values=('forced', 'wide', 'plain')[int(rng.integers(0, 3))])
+                i += 1
+    # (H) units / dtypes of the metadata objects: every class x byte order x target; the canonical
+    #     class (objects already in the unit and dtype that is written) also built twice from the
+    #     same objects
+    for meta in META_CLASSES:
+        for bo in orders:
+            for tgt in ('bytesio', 'file'):
+                single(program=shuffled(CALLS), meta=meta, byteorder=bo, target=tgt,
+                       mode=('direct', 'indirect', 'mixed')[int(rng.integers(0, 3))],
+                       nruns=int(rng.integers(1, 4)), repeat=2 if meta in ('canonical', 'mixed') else 1,
+                       byteorder_as=('str', 'enum')[int(rng.integers(0, 2))])
+    for tgt in ('bytesio', 'file'):
+        for mode in ('direct', 'indirect'):
+            single(pin=0, program=shuffled(CALLS), meta='canonical', byteorder=NON_NATIVE, target=tgt,
+                   mode=mode, repeat=2, dtypes='all_f64')
+    # (I) array sizes on both sides of the writer's constants and of powers of two, both targets:
+    #     histogram (n-d arrays written by the builder), energy grids (n-d arrays of data blocks,
+    #     always serialised in memory first), pixel chunks
+    j = 0
+    for count in SIZE_POINTS:
+        sides = ('below', 'equal', 'above') if count <= (1 << 16) else ('below', 'above')
+        for side in sides:
+            for tgt in (('bytesio', 'file') if count <= (1 << 18) or thorough
+                        else (('bytesio', 'file')[(j + seed) % 2],)):
+                single(program=shuffled(['dnd'] + [x for x in CALLS if x != 'dnd' and rng.random() < 0.4]),
+                       dnd_bins=shape_near(rng, count, side), target=tgt, byteorder=orders[(j + seed) % 3],
+                       npix=3)
+                j += 1
+    for _ in range(4 if not thorough else 12):
+        count = int(2 ** rng.uniform(10, 21))
+        single(program=shuffled(['dnd', 'pix']), dnd_bins=shape_near(rng, count, 'equal'),
+               target=('bytesio', 'file')[j % 2], byteorder=orders[(j + seed) % 3], npix=3)
+        j += 1
+    for count in (1 << 13, 1 << 16, 1 << 20):
+        for side in ('below', 'above'):
+            ndet, n_en = shape_near(rng, count, side, ndim=2)
+            single(program=with_pix(), mode='indirect', ndet=ndet, n_en=n_en, nruns=1 if count > 1 << 16 else 2,
+                   target=('bytesio', 'file')[j % 2], byteorder=orders[(j + seed) % 3],
+                   meta=('random', 'canonical', 'f32')[j % 3])
+            j += 1
+    for n_en in (8193, 100000):
+        single(program=with_pix(), mode='direct', n_en=n_en, nruns=2, target=('bytesio', 'file')[j % 2],
+               byteorder=orders[(j + seed) % 3], meta=('canonical', 'random')[j % 2])
+        j += 1
+    for n, c in ((100000, 100000), (100000, None), (65537, 65536)) if not thorough else \
+            ((100000, None), (65537, 65536), (70000, 1000)):
+        single(program=with_pix(), npix=n, chunk=c, target=('bytesio', 'file')[j % 2],
+               byteorder=orders[(j + seed) % 3], values='wide', nruns=2,
+               rowset=('default', 'superset', 'subset')[j % 3])
+        j += 1
+    # (J) the heavy cases of the run (~100 MB / ~35 MB files): arrays beyond 2^22 elements
+    heavy_bins = shape_near(rng, HEAVY + (HEAVY >> 5), 'above')
+    single(pin=N_SHARDS - 1, program=shuffled(['dnd', 'pix']), dnd_bins=heavy_bins, target='bytesio',
+           byteorder=orders[seed % 3], npix=11)
+    ndet, n_en = HEAVY // 64 + 500 + int(rng.integers(0, 500)), 64
+    single(pin=N_SHARDS - 2, program=shuffled(['pix', 'inst']), mode='indirect', ndet=ndet, n_en=n_en,
+           nruns=1, target=('file', 'bytesio')[seed % 2], byteorder=orders[(seed + 1) % 3], npix=11)
+    if thorough:
+        single(pin=N_SHARDS - 3, program=shuffled(['dnd', 'pix', 'samp']),
+               dnd_bins=shape_near(rng, HEAVY + (HEAVY >> 4), 'above'), target='file',
+               byteorder=orders[(seed + 2) % 3], npix=11)
     for i, it in enumerate(items):
         it['item'] = i
         for j, c in enumerate(it['cases']):
@@ -505,15 +799,23 @@ def plan(tier, seed):
 
 def items_of_shard(shard):
     items = make_items(shard.get('tier', 'quick'), int(shard.get('seed', 0)))
-    # cost-balanced assignment: heavy items (many pixels x small chunks, large groups) first
+    # cost-balanced assignment: heavy items (many pixels x small chunks, large arrays, large
+    # groups) first; pinned items go to their shard
     def cost(it):
         c = 0.0
         for cs in it['cases']:
             ch = cs['chunk'] or 8192
             c += 1.0 + cs['npix'] / 2000.0 + 10.0 * math.ceil(cs['npix'] / ch) / 1000.0
+            if cs.get('dnd_bins') and 'dnd' in cs['program']:
+                c += float(np.prod(cs['dnd_bins'])) / 5e4
+            if cs.get('ndet') and cs.get('n_en') and 'pix' in cs['program']:
+                c += cs['ndet'] * cs['n_en'] * cs['nruns'] / 2e4
+            c *= cs.get('repeat', 1)
         return c
-    order = sorted(range(len(items)), key=lambda i: (-cost(items[i]), i))
+    free = [i for i in range(len(items)) if 'pin' not in items[i]]
+    order = sorted(free, key=lambda i: (-cost(items[i]), i))
     mine = [items[i] for k, i in enumerate(order) if k % shard['of'] == shard['part']]
+    mine += [it for it in items if it.get('pin') is not None and it['pin'] % shard['of'] == shard['part']]
     return sorted(mine, key=lambda it: it['item'])
 
 
@@ -522,7 +824,7 @@ def target_for(case, tmpdir, rng):
     if case['target'] == 'bytesio':
         return io.BytesIO()
     kind = case.get('path', 'plain')
-    tag = '-'.join(str(x) for x in case['vseed'])
+    tag = '-'.join(str(x) for x in case['vseed']) + (f"r{case['rep']}" if case.get('rep') else '')
     if kind == 'plain':
         d, name = tmpdir, f'f{tag}.sqw'
     elif kind == 'deep':
@@ -555,18 +857,36 @@ def expected_names(program) -> set:
     return names
 
 
-def chunk_relation(case):
+def rows_of(case, spec=None):
+    """Number of pixel rows the case writes (random row sets need the spec)."""
+    if spec is not None:
+        return len(spec['pix']['row_names'])
+    return 9 if case.get('rowset', 'default') in ('default', 'explicit', 'reordered', 'custom_units') else None
+
+
+def chunk_relation(case, nrows=9):
     n, c = case['npix'], case['chunk']
     if 'pix' not in case['program']:
         return 'no-pix'
     if c is None:
         c = 8192
-    rel = 'c<9' if c < 9 else 'c=9' if c == 9 else 'c>9'
+    rel = 'c<rows' if c < nrows else 'c=rows' if c == nrows else 'c>rows'
     rel += ',c<n' if c < n else ',c=n' if c == n else ',c>n'
     return rel
 
 
-def signature(case):
+def size_class(case):
+    out = []
+    if case.get('dnd_bins') and 'dnd' in case['program']:
+        out.append('dnd2^%d' % int(math.log2(max(int(np.prod(case['dnd_bins'])), 1))))
+    if case.get('ndet') and case.get('n_en') and 'pix' in case['program'] and case['mode'] != 'direct':
+        out.append('en2^%d' % int(math.log2(max(case['ndet'] * case['n_en'], 1))))
+    if case.get('n_en') and case['mode'] == 'direct' and 'pix' in case['program']:
+        out.append('en1d2^%d' % int(math.log2(case['n_en'])))
+    return '+'.join(out) or '-'
+
+
+def signature(case, spec=None):
     n = case['npix']
     ncls = '0' if n == 0 else '1' if n == 1 else '<=9' if n <= 9 else '<=100' if n <= 100 else \
         '<=8192' if n <= 8192 else '>8192'
@@ -574,20 +894,29 @@ def signature(case):
     s = case['string']
     scls = (s['field'], s['alphabet'], '0' if s['length'] == 0 else '<256' if s['length'] < 256 else
             '<5000' if s['length'] < 5000 else '5000')
+    has_pix = 'pix' in case['program']
+    nrows = rows_of(case, spec) or 9
+    variant = (case.get('rowset', 'default') if has_pix else '-', case.get('dtypes', 'mixed') if has_pix else '-',
+               case.get('meta', 'random'), 'nd=%s' % case.get('n_dims') if has_pix else '-',
+               't' if case.get('pass_title', True) else 'no-title', case.get('byteorder_as', 'str'),
+               size_class(case), 'x%d' % case.get('repeat', 1), 'rep%d' % case.get('rep', 0))
     return (','.join(sorted(case['program'])), len(case['program']), case['byteorder'], ncls,
-            chunk_relation(case), '1' if r == 1 else '<=4' if r <= 4 else '<20' if r < 20 else '20',
-            case['mode'], scls, case['target'] + ':' + case.get('path', 'plain'))
+            chunk_relation(case, nrows), '1' if r == 1 else '<=4' if r <= 4 else '<20' if r < 20 else '20',
+            case['mode'], scls, case['target'] + ':' + case.get('path', 'plain'), variant)
 
 
 def case_summary(case):
-    return {k: case[k] for k in ('program', 'byteorder', 'npix', 'chunk', 'nruns', 'mode', 'string',
-                                 'target', 'path', 'values', 'run_ids', 'vseed') if k in case}
+    keys = ('program', 'byteorder', 'npix', 'chunk', 'nruns', 'mode', 'string', 'target', 'path', 'values',
+            'run_ids', 'vseed', 'rowset', 'dtypes', 'meta', 'n_dims', 'pass_title', 'byteorder_as', 'dnd_bins',
+            'ndet', 'n_en', 'repeat', 'rep', 'rows', 'row_units', 'row_dtypes')
+    return {k: case[k] for k in keys if k in case and case[k] is not None}
 
 
-def hit_forced(ctx, case):
+def hit_forced(ctx, case, spec=None):
     n, c = case['npix'], case['chunk']
     has_pix = 'pix' in case['program']
     if has_pix:
+        nrows = rows_of(case, spec) or 9
         cc = 8192 if c is None else c
         if cc > n:
             ctx.hit('chunk>npix')
@@ -595,20 +924,55 @@ def hit_forced(ctx, case):
             ctx.hit('chunk==npix')
         if cc < n:
             ctx.hit('chunk<npix')
-        if cc < 9:
+        if cc < nrows:
             ctx.hit('chunk<rows')
-        if cc < n and math.ceil(9 / cc) * cc < n:
+        if cc < n and math.ceil(nrows / cc) * cc < n:
             ctx.hit('chunks*ceil(rows/chunk)<npix')
         if n == 0:
             ctx.hit('npix==0')
         if n > 8192:
             ctx.hit('npix>8192')
+        if n >= 100000:
+            ctx.hit('npix>=1e5')
         if case['nruns'] == 20:
             ctx.hit('runs==20')
         if case['nruns'] == 1:
             ctx.hit('runs==1')
         if case['mode'] != 'direct':
             ctx.hit('indirect')
+        if spec is not None:
+            px = spec['pix']
+            dts = {px['rows'][k]['dtype'] for k in px['row_names']}
+            if nrows > 9:
+                ctx.hit('rows>9')
+            if nrows < 9:
+                ctx.hit('rows<9')
+            ctx.hit('rowset:' + case.get('rowset', 'default'))
+            ctx.hit('dtypes:' + case.get('dtypes', 'mixed'))
+            if n >= 1 and len(dts) == 1:
+                ctx.hit('rows:all_' + next(iter(dts)))
+            if not px['pass_rows']:
+                ctx.hit('kw:rows_default')
+        if case.get('n_dims') is not None:
+            ctx.hit('kw:n_dims=%d' % case['n_dims'])
+        if case['mode'] != 'direct' and case.get('ndet') and case.get('n_en') and \
+                case['ndet'] * case['n_en'] > HEAVY:
+            ctx.hit('size:en>2^22')
+    if 'dnd' in case['program'] and case.get('dnd_bins'):
+        vol = int(np.prod(case['dnd_bins']))
+        if vol > HEAVY:
+            ctx.hit('size:dnd>2^22:' + case['target'])
+        elif vol > 8192:
+            ctx.hit('size:dnd>8192:' + case['target'])
+    if not case.get('pass_title', True):
+        ctx.hit('kw:title_default')
+    ctx.hit('kw:byteorder_' + case.get('byteorder_as', 'str'))
+    if case.get('meta') == 'canonical' and resolved(case['byteorder']) != NATIVE and len(case['program']) >= 3:
+        ctx.hit('canonical_objects+non_native_order')
+    if case.get('meta') in ('f32', 'int'):
+        ctx.hit('meta:' + case['meta'])
+    if case.get('rep'):
+        ctx.hit('second_build_from_same_objects')
     s = case['string']
     if s['alphabet'] != 'ascii' and s['length'] > 0:
         ctx.hit('non_ascii_string')
@@ -627,7 +991,12 @@ def hit_forced(ctx, case):
 FORCED = ['chunk>npix', 'chunk==npix', 'chunk<npix', 'chunk<rows', 'chunks*ceil(rows/chunk)<npix',
           'npix==0', 'npix>8192', 'runs==20', 'runs==1', 'indirect', 'non_ascii_string',
           'empty_string', 'string_len>=5000', 'target:bytesio', 'target:file', 'byteorder:native',
-          'byteorder:little', 'byteorder:big', 'non_ascii_path', 'empty_program']
+          'byteorder:little', 'byteorder:big', 'non_ascii_path', 'empty_program',
+          'npix>=1e5', 'rows>9', 'rows<9', *('rowset:' + k for k in ROWSETS), *('dtypes:' + k for k in DTYPE_PLANS),
+          'rows:all_float32', 'rows:all_float64', 'rows:all_int64', 'rows:all_int32', 'kw:rows_default', 'kw:n_dims=0', 'kw:n_dims=4',
+          'kw:title_default', 'kw:byteorder_str', 'kw:byteorder_enum', 'kw:byteorder_omit',
+          'size:en>2^22', 'size:dnd>2^22:bytesio', 'size:dnd>8192:bytesio', 'size:dnd>8192:file',
+          'canonical_objects+non_native_order', 'meta:f32', 'meta:int', 'second_build_from_same_objects']
 
 
 # ------------------------------------------------------------ writer trace ---
@@ -780,13 +1149,15 @@ def written_per_block(trace) -> dict:
     return out
 
 
-def pix_mechanism(trace):
-    """Why the pixel block is not what the table declares, from the observed write loop."""
+def pix_mechanism(trace, declared=None):
+    """Why the pixel block is not what the table declares, from the observed write loop
+    (``declared``: the size in the allocation table, if it was decoded)."""
     p = (trace or {}).get('pix')
     if not p or p['rows'] is None or p['written'] is None:
         return 'unobserved'
     rows, npix, chunk = p['rows'], p['npix'], p['chunk_size']
-    declared = (trace or {}).get('pix_size')
+    if declared is None:
+        declared = (trace or {}).get('pix_size')
     want = 12 + 4 * rows * npix
     if declared is not None and declared != want:
         return 'pix_size_formula'
@@ -833,6 +1204,33 @@ def string_mechanism(buf, descriptor, bo):
             'declared_chars_vs_bytes': [(n, b) for _, n, b in sites][:4]}
 
 
+def _walk_nodes(node, path, out):
+    out.append((path, node))
+    if node.tag == 'cell':
+        for i, v in enumerate(node.value):
+            _walk_nodes(v, f'{path}[{i}]', out)
+    elif node.tag == 'struct':
+        for i, st in enumerate(node.value):
+            for k, v in st.items():
+                _walk_nodes(v, f'{path}.{k}' if len(node.value) == 1 else f'{path}[{i}].{k}', out)
+
+
+def itemsize_mechanism(buf, descriptor, bo, limit=600):
+    """Does the block decode completely when ONE f64-tagged array holds 4-byte items?"""
+    for k in range(limit):
+        alt = {'at': k, 'itemsize': 4, 'seen': 0}
+        b = D.decode_block(buf, descriptor, bo, alt=alt)
+        if alt['seen'] <= k:
+            return None  # fewer f64 arrays than k in the decodable part
+        if b.ok and b.consumed == descriptor.size and 'hit' in alt:
+            nodes = []
+            _walk_nodes(b.value, '', nodes)
+            field = next((p for p, n in nodes if n.offset == alt['hit'][0] and n.tag == 'f64'), '?')
+            return {'mechanism': 'f64_tag_4_byte_items', 'field': field.rsplit('.', 1)[-1],
+                    'path': field, 'shape': alt['hit'][1]}
+    return None
+
+
 # ------------------------------------------------------------------ judging ---
 def judge_structure(ctx, case, buf, trace, exc=None):
     """All container rules of C12 on one produced file.  Returns the decoded file."""
@@ -845,12 +1243,12 @@ def judge_structure(ctx, case, buf, trace, exc=None):
                       exception=type(exc).__name__)
         return None
     # -- header literal
-    has_pix = 'pix' in case['program']
-    lit = D.header_literal(bo, 1, 4 if has_pix else 0)
+    nd = expected_n_dims(case)
+    lit = D.header_literal(bo, 1, nd)
     ctx.event('header')
     if buf[:len(lit)] != lit:
         other = 'big' if bo == 'little' else 'little'
-        swapped = buf[:len(lit)] == D.header_literal(other, 1, 4 if has_pix else 0)
+        swapped = buf[:len(lit)] == D.header_literal(other, 1, nd)
         ctx.violation('header', 'file does not begin with the horace 4.0 header in the byte order '
                       f'requested ({bo}): {bytes(buf[:26]).hex()}', cs,
                       mechanism='header_other_byteorder' if swapped else 'header_literal')
@@ -912,7 +1310,7 @@ def judge_structure(ctx, case, buf, trace, exc=None):
         keys = {'block_type': d.block_type, 'block': '/'.join(d.name)}
         diag = ''
         if d.block_type == 'pix_data_block':
-            keys['mechanism'] = pix_mechanism(trace)
+            keys['mechanism'] = pix_mechanism(trace, d.size)
             if keys['mechanism'] == 'none':
                 keys['mechanism'] = 'pix_extent'
         elif d.block_type == 'dnd_data_block':
@@ -921,10 +1319,15 @@ def judge_structure(ctx, case, buf, trace, exc=None):
                 else 'dnd_extent'
         else:
             sm = string_mechanism(buf, d, bo)
+            im = None if sm else itemsize_mechanism(buf, d, bo)
             if sm:
                 keys['mechanism'], keys['site'] = sm['mechanism'], sm['site']
                 diag = (f"; decodes completely if char lengths count characters: fields {sm['fields']} "
                         f"declare/occupy {sm['declared_chars_vs_bytes']} chars/bytes")
+            elif im:
+                keys['mechanism'], keys['field'] = im['mechanism'], im['field']
+                diag = (f"; decodes completely if the f64-tagged array {im['path']} of shape {im['shape']} "
+                        f"holds 4-byte elements")
             else:
                 keys['mechanism'] = 'data_block_extent'
         tr = wpb.get('/'.join(d.name))
@@ -1057,39 +1460,49 @@ def run(shard, ctx):
         with tr:
             for it in items:
                 orders_seen = []
-                for case in it['cases']:
-                    rng = np.random.Generator(np.random.PCG64(case['vseed']))
-                    spec = gen_spec(rng, case)
-                    models = build_models(S, sc, spec, case['program'])
-                    target = target_for(case, tmpdir, rng)
-                    state.update(case=case, target=target, file=None, judged=False)
-                    before = ctx.n_violations
-                    try:
-                        run_program(S, case, spec, models, target)
-                    except Exception:  # noqa: BLE001  (judged by the monitor through PY_UNWIND)
-                        pass
-                    f = state['file']
-                    if state['judged']:
-                        judge_reopen(ctx, S, case, target, f, deduced)
-                    else:
-                        ctx.count('create_not_observed')
-                    state['case'] = None
-                    orders_seen.append((case, f.names() if f is not None and not f.bat_error
-                                        and not f.header_error else None))
-                    hit_forced(ctx, case)
-                    ctx.case(signature(case), trivial=(not case['program'] and case['byteorder'] == 'native'))
-                    if it['kind'] == 'perm_group':
-                        key = tuple(case['program'])
-                        if key not in seen_programs:
-                            seen_programs.add(key)
-                            ctx.count('programs_run')
-                    if ctx.n_violations > before or (it['item'] % 97 == 0 and case is it['cases'][0]):
-                        ctx.sample(case_summary(case))
-                    if not isinstance(target, io.BytesIO):
+                for case0 in it['cases']:
+                    rng = np.random.Generator(np.random.PCG64(case0['vseed']))
+                    spec = gen_spec(rng, case0)
+                    models = build_models(S, sc, spec, case0['program'])
+                    describe_rows(case0, spec)
+                    for case in case_reps(case0):
+                        target = target_for(case, tmpdir, rng)
+                        state.update(case=case, target=target, file=None, judged=False)
+                        before = ctx.n_violations
                         try:
-                            os.remove(target)
-                        except OSError:
-                            pass
+                            run_program(S, case, spec, models, target)
+                        except Exception as e:  # noqa: BLE001  (create: judged by the monitor, PY_UNWIND)
+                            if not state['judged']:
+                                # a valid builder program did not get as far as create()
+                                ctx.violation('builder_raised', f'{type(e).__name__}: {str(e)[:200]} (before create)',
+                                              case_summary(case), exception=type(e).__name__)
+                        f = state['file']
+                        if state['judged']:
+                            judge_reopen(ctx, S, case, target, f, deduced)
+                        else:
+                            ctx.count('create_not_observed')
+                        state['case'] = None
+                        if not case.get('rep'):
+                            orders_seen.append((case, f.names() if f is not None and not f.bat_error
+                                                and not f.header_error else None))
+                        hit_forced(ctx, case, spec)
+                        ctx.case(signature(case, spec),
+                                 trivial=(not case['program'] and case['byteorder'] == 'native'))
+                        if it['kind'] == 'perm_group':
+                            key = tuple(case['program'])
+                            if key not in seen_programs:
+                                seen_programs.add(key)
+                                ctx.count('programs_run')
+                        if ctx.n_violations > before or (it['item'] % 97 == 0 and case0 is it['cases'][0]):
+                            ctx.sample(case_summary(case))
+                        if not isinstance(target, io.BytesIO):
+                            try:
+                                os.remove(target)
+                            except OSError:
+                                pass
+                        state.update(target=None, file=None)
+                        del target, f
+                    del spec, models
                 if it['kind'] == 'perm_group' and len(it['cases']) > 1:
                     judge_group(ctx, it['cases'], orders_seen)
     finally:
@@ -1108,4 +1521,9 @@ FINDING_PREDICATES = {
     # char-array shape / length written as number of characters, bytes written are UTF-8
     'sqw.writer.string_length_in_characters': lambda v: v['kind'] in ('data_block_incomplete', 'data_block_size')
     and _mech(v) == 'string_length_in_characters',
+    # SqwBuilder._make_pix_metadata: np.vstack of the per-row (min, max) keeps the dtype of the rows;
+    # when every selected row is float32 (or int32) data_range has 4-byte items under the f64 tag
+    'sqw.writer.pix_data_range_dtype': lambda v: v['kind'] in ('data_block_incomplete', 'data_block_size')
+    and _mech(v) == 'f64_tag_4_byte_items' and (v.get('keys') or {}).get('block') == 'pix/metadata'
+    and (v.get('keys') or {}).get('field') == 'data_range',
 }
